@@ -9,6 +9,43 @@
 #include <memory>
 #include <future>
 
+#ifdef MUSTACHE_VERIF
+namespace mustache::verif {
+    // Schedule points reported by the dispatcher (verification builds only).
+    enum SchedPoint : int {
+        kWorkerBeforeLock = 1,  // worker is about to acquire the mutex
+        kWorkerAfterLock = 2,   // worker holds the mutex (top of its loop)
+        kWorkerBeforeWait = 3,  // worker found nothing to do and is about to count itself idle and sleep (mutex held)
+        kWorkerAfterWake = 4,   // worker returned from the condition wait (mutex held)
+        kWorkerPop = 5,         // worker popped a job from queue `arg` (mutex held)
+        kTaskBegin = 6,         // a job of queue `arg` is about to run on `thread_id` (mutex not held)
+        kTaskEnd = 7,           // the job returned (mutex not held)
+        kWorkerRelocked = 8,    // worker re-acquired the mutex after its job (before marking the queue idle)
+        kWorkerExit = 9,        // worker left its loop
+        kWaiterBeforeLock = 10, // wait(queue `arg`): about to acquire the mutex
+        kWaiterAfterLock = 11,  // wait: mutex held
+        kWaiterEmpty = 12,      // wait: queue empty, leaving the helper loop (mutex held)
+        kWaiterPop = 13,        // wait: popped a job to run it on the calling thread (mutex held)
+        kWaiterRelocked = 14,   // wait: re-acquired the mutex after the job
+        kWaiterSpin = 15,       // wait: one iteration of the final spin (condition was false)
+        kWaiterDone = 16,       // wait: returning
+        kWaiterBlocked = 17,    // wait: serial queue is busy, not helping this round (mutex held)
+        kSubmit = 18,           // a job was pushed to queue `arg` (mutex held)
+        kSubmitNotified = 19,   // notify_one after a push
+        kSubmitInline = 20,     // single-thread mode: job is run inline by the submitter
+        kShutdownBegin = 21,    // destructor entered, terminate not yet set
+        kShutdownFlag = 22,     // terminate set
+        kShutdownCleared = 23,  // pending parallel jobs dropped
+        kShutdownNotified = 24, // notify_all done
+        kShutdownJoined = 25,   // all workers joined
+        kCreateQueue = 26       // serial queue `arg` created (mutex held)
+    };
+    // Process-global callback; null (the default) disables reporting. `dispatcher` identifies the
+    // dispatcher's shared state, `arg` is a queue number (0 = parallel queue, k + 1 = k-th serial queue).
+    MUSTACHE_EXPORT extern void (*sched_hook)(int point, const void* dispatcher, unsigned thread_id, int arg);
+}
+#endif
+
 namespace mustache {
 
     struct MUSTACHE_EXPORT ThreadId : public IndexLike<uint32_t, ThreadId>{};
